@@ -18,7 +18,8 @@ RULE = ("histories of 1-4 steps (create / modify / delete / rename through a scr
         "history: exclude patterns, one or two prefixes to strip (including a second prefix that matches what is left after "
         "the first), base path) with at most one tamper event: file edit / add "
         "/ delete / rename / content-preserving rewrite / excluded file at a step boundary or on the final product, link edit / "
-        "swap (re-signed by an unauthorised key) / removal. Non-trivial: every history; distinct by description.")
+        "swap (re-signed by an unauthorised key) / removal / forgery (final product edited and a matching link by an unknown key "
+        "dropped under the name of an authorised functionary who did not take part). Non-trivial: every history; distinct by description.")
 ASSUMPTIONS = ["the layout closes every rule list: REQUIRE for every product of the previous step, MATCH * WITH PRODUCTS, DISALLOW *",
                "the harness's own walker and pathspec decide what is covered and under which name; the final inspection records "
                "with the default patterns and no stripping, so its rules use MATCH ... IN <prefix> and ALLOW for files the "
@@ -51,7 +52,9 @@ def one_case(rng, res, check_c11=True):
             # an honest history: the hypotheses of the theorem `honest_chain_verifies` must hold on the files in-toto wrote
             # (the theorem is not vacuous on real data) and its prediction must be what the implementation returns
             res.evaluations += 1
-            if not applies:
+            if not applies and any(st_.get("extra") is not None for st_ in h.steps):
+                res.count("honest_theorem_not_applicable_second_functionary")       # the theorem is about single-functionary steps
+            elif not applies:
                 res.fail("disagree", {"op": "honest_check", "desc": desc},
                          {"op": "honest_check", "why": "the hypotheses of honest_chain_verifies do not hold on an honest history"})
             elif honest["result"] != i.get("result"):
